@@ -105,6 +105,9 @@ def chunks(p, bad_kind='syntax'):
         'CREATE TABLE %s (Id UNIQUE_ID, A_Id UNIQUE_ID, %s INTEGER);\n' % (B, p['N']) +
         'CREATE ROP REF_ID R1 FROM MC %s (A_Id) TO 1C %s (Id);\n' % (B, A) +
         'CREATE UNIQUE INDEX I1 ON %s (Id);\n' % A +
+        # (round 11, C18-21) an association over two-attribute keys; a later identifier lists the referred attributes the other way round
+        'CREATE TABLE %sk (Kx INTEGER, Ky INTEGER);\nCREATE TABLE %sk (Fx INTEGER, Fy INTEGER);\n' % (A, B) +
+        'CREATE ROP REF_ID R2 FROM MC %sk (Fx, Fy) TO 1C %sk (Kx, Ky);\n' % (B, A) +
         # a class whose rows may arrive (and be built with guessed types) before this declaration
         'CREATE TABLE %sx (F STRING, G INTEGER);\n' % p['Z'],
 
@@ -112,6 +115,7 @@ def chunks(p, bad_kind='syntax'):
         'INSERT INTO %s VALUES (%s, %s, 1);\n' % (B, uid(0x201), uid(0x101)) +
         # (rows in the named-column form, columns in declared and in another order: round 9, C18-18)
         'INSERT INTO %s (Id, A_Id, %s) VALUES (%s, %s, 2);\n' % (B, p['N'], uid(0x202), uid(0)) +
+        'INSERT INTO %sk VALUES (1, 2);\nINSERT INTO %sk VALUES (2, 1);\nINSERT INTO %sk VALUES (2, 1);\n' % (A, A, B) +
         'INSERT INTO %sx VALUES (1, 3);\n' % p['Z'],
 
         'INSERT INTO %s (%s, Id) VALUES (%s, %s);\n' % (A, p['Name'], q(p['s'][1]), uid(0x102)) +
@@ -417,6 +421,9 @@ class LoaderModel(explorer.Model):
             if mca is not None and mcb is not None and r.associations and mca.storage and mcb.storage:
                 ops.append(['mut', k, 'relate', B, len(mcb.storage) - 1, A, 0])
                 ops.append(['mut', k, 'unrelate', B, 0, A, 0])
+            mck = r.metaclasses.get((A + 'k').upper())
+            if mck is not None and 'I3' not in mck.indices and r.associations:
+                ops.append(['mut', k, 'define_uid', A + 'k', 'I3', ['Ky', 'Kx']])
             if Z.upper() not in r.metaclasses:
                 ops.append(['mut', k, 'define_class', Z, [['Id', 'UNIQUE_ID'], ['V', 'STRING']]])
             elif not r.metaclasses[Z.upper()].storage:
